@@ -50,3 +50,46 @@ Proof.
   intros R SP H to_b of_b E T.
   exact (@reachable_ok (codec_region R to_b of_b) (@codec_region_spec R SP to_b of_b) (@codec_region_ok R SP H to_b of_b E T)).
 Qed.
+
+(** * the heavy-hitter summary in the LOSSY regime (more than 1024 updates; Codec/MisraGries.v) *)
+From FC Require Import Codec.MisraGries.
+Local Open Scope N_scope.
+
+(** For ANY sequence of updates: the summary never over-estimates a string's count and
+    under-estimates it by at most the slack D; every lossy compaction (T of them) costs the total
+    weight more than 513 times what it subtracts, and needs 512 fresh updates:
+    D <= total / 513 + T  and  T <= updates / 512. *)
+Theorem C07_summary_accuracy : forall us, exists D T,
+  (forall x, cnt x (mg_done (mg_run us [])) <= cnt x us /\ cnt x us <= cnt x (mg_done (mg_run us [])) + D) /\
+  T <= D /\ 513 * (D - T) + T <= wt us /\ 512 * T <= N.of_nat (length us).
+Proof. exact mg_accuracy. Qed.
+
+(** with fewer than 1024 updates nothing is lost at all *)
+Theorem C07_summary_exact : forall us x, (length us < CAP)%nat -> cnt x (mg_done (mg_run us [])) = cnt x us.
+Proof. exact mg_exact. Qed.
+
+(** a region created fresh and pushed [xs] summarises exactly the pushes of non-empty strings *)
+Theorem C07_region_summary : forall xs c0, cstats c0 = [] ->
+  let us := map (fun x : bytes => (x, 1)) (filter nonempty xs) in
+  exists D T,
+    (forall x, cnt x (mg_done (cstats (fold_left record_stats xs c0))) <= cnt x us /\
+               cnt x us <= cnt x (mg_done (cstats (fold_left record_stats xs c0))) + D) /\
+    T <= D /\ 513 * (D - T) + T <= wt us /\ 512 * T <= N.of_nat (length us).
+Proof. exact codec_summary_accuracy. Qed.
+
+(** merging the sources' summaries obeys the same bound relative to them ... *)
+Theorem C07_merged_accuracy : forall cs, exists D T,
+  (forall x, est cs x <= src cs x /\ src cs x <= est cs x + D) /\
+  T <= D /\ 513 * (D - T) + T <= wt (sources cs) /\ 512 * T <= N.of_nat (length (sources cs)).
+Proof. exact merged_accuracy. Qed.
+
+(** ... and a DOMINANT string -- its summed source count exceeds the slack, and fewer than
+    #free-tags strings come within the slack of it -- is a dictionary entry of the merged region:
+    it is stored in exactly one byte. *)
+Theorem C07_dominant_one_byte : forall cs x D,
+  (forall y, est cs y <= src cs y /\ src cs y <= est cs y + D) ->
+  D < src cs x ->
+  (forall ys, NoDup ys -> Forall (fun y => src cs x - D <= src cs y) ys ->
+     (length ys <= length (free_tags (flat_map cseen cs) 256))%nat) ->
+  exists t, stored_form (new_from cs) x = Ok [t].
+Proof. exact dominant_one_byte. Qed.
